@@ -1,12 +1,13 @@
 /-
 Layer C, composition: the invariant of a bucket's tree (separator invariant, tightness, uniform depth)
 is kept by every leaf edit of a transaction and re-established by commit (any replayed `rebalance`
-steps, then `spill`), and commit does not change the contents.
+steps, any touches of nested-bucket headers, then `spill`), and commit does not change the contents.
 -/
 import Jamm.Proofs.CommitLemmas
 import Jamm.Proofs.CommitSepLemmas
 import Jamm.Proofs.CommitSpillLemmas
 import Jamm.Proofs.CommitTightLemmas
+import Jamm.Proofs.CommitTouch
 import Jamm.Proofs.TxLemmas
 set_option linter.unusedSectionVars false
 open Std
@@ -88,18 +89,21 @@ end
 section
 variable (p : Params) (pagesize hdr leafHdr branchHdr bmSize : Nat)
 
-theorem commitTree_flatten (steps : List RbStep) (t : Tree Bytes Ent) (d : Nat) (hu : UniformT d t) :
-    (commitTree p pagesize hdr leafHdr branchHdr bmSize steps t).flatten = t.flatten := by
+theorem commitTree_flatten (steps : List RbStep) (touched : List Bytes) (t : Tree Bytes Ent) (d : Nat)
+    (hu : UniformT d t) :
+    (commitTree p pagesize hdr leafHdr branchHdr bmSize steps touched t).flatten = t.flatten := by
   unfold commitTree
   simp only
-  rw [spillRoot_flatten, rebalance_flatten t d hu steps]
+  rw [spillRoot_flatten, touchAll_flatten, rebalance_flatten t d hu steps]
 
-theorem commitTree_inv (hp : p.Valid) (h2 : 2 ≤ p.minKeysPerNode) (steps : List RbStep) (t : Tree Bytes Ent)
-    (h : TreeInv t) : TreeInv (commitTree p pagesize hdr leafHdr branchHdr bmSize steps t) := by
+theorem commitTree_inv (hp : p.Valid) (h2 : 2 ≤ p.minKeysPerNode) (steps : List RbStep) (touched : List Bytes)
+    (t : Tree Bytes Ent) (h : TreeInv t) :
+    TreeInv (commitTree p pagesize hdr leafHdr branchHdr bmSize steps touched t) := by
   obtain ⟨d, hu⟩ := h.uniform
-  obtain ⟨d1, hu1⟩ := rebalance_uniform steps t d hu
-  have hw1 := rebalance_wfs t h.sep d hu steps
-  have ht1 := rebalance_tightM t steps (tight_tightM none t h.tight)
+  obtain ⟨d1, hu0⟩ := rebalance_uniform steps t d hu
+  have hu1 := touchAll_uniform touched _ d1 hu0
+  have hw1 := touchAll_wfs none none touched _ (rebalance_wfs t h.sep d hu steps)
+  have ht1 := touchAll_tightM none touched _ (rebalance_tightM t steps (tight_tightM none t h.tight))
   unfold commitTree
   simp only
   refine ⟨spillRoot_wfs p pagesize hdr leafHdr branchHdr bmSize hp _ _ d1 hw1 hu1, ?_,
